@@ -79,6 +79,26 @@ func convertWith(o *osm.OSM, opts []osmgeojson.Option) (fc *geojson.FeatureColle
 	return fc, out, err
 }
 
+// scribbleCase: see the sequential pass in main. Returns the number of results written into.
+func scribbleCase(r *kit.Run, d *Data) (n int) {
+	o := build(d)
+	for _, s := range []int{0, 15} {
+		b1, err1 := convert(o, s, false)
+		fc, _, err := convertWith(o, options(s, false))
+		if err1 != nil || err != nil {
+			continue // reported by the parallel pass
+		}
+		scribble(fc)
+		n++
+		if b2, err := convert(o, s, false); err != nil || string(b2) != string(b1) {
+			r.Violation("determinism/after-writing-into-a-result", fmt.Sprintf("[%s, options %s] the conversion that follows a write into every map and coordinate list of an earlier result differs (err=%v):\n%s\n%s", d.Name, optSetName(s), err, b1, b2),
+				replayCase{Options: optSetName(s), Data: *d})
+			break
+		}
+	}
+	return n
+}
+
 // scribble writes into everything of a result that can be written in place.
 func scribble(fc *geojson.FeatureCollection) {
 	for _, f := range fc.Features {
@@ -207,17 +227,6 @@ func checkCase(r *kit.Run, d *Data) {
 		if b3, err := convert(o2, s, false); err != nil || string(b3) != string(b) {
 			nondet = true
 			viol(s, "determinism/independent-copy", fmt.Sprintf("conversion of an equal input differs (err=%v):\n%s\n%s", err, b, b3))
-		}
-
-		// the caller owns what Convert returned: after writing into every map and every
-		// coordinate list of a result, the next conversion still gives the same output
-		// (nothing a result holds may be shared with later results or with the input)
-		if fcs, _, err := convertWith(o, options(s, false)); err == nil {
-			scribble(fcs)
-			if b4, err := convert(o, s, false); err != nil || string(b4) != string(b) {
-				nondet = true
-				viol(s, "determinism/after-writing-into-a-result", fmt.Sprintf("the conversion that follows a write into every map and coordinate list of an earlier result differs (err=%v):\n%s\n%s", err, b, b4))
-			}
 		}
 
 		// the input is never modified
@@ -396,6 +405,7 @@ func main() {
 			var c replayCase
 			r.LoadReplay(&c)
 			checkCase(r, &c.Data)
+			scribbleCase(r, &c.Data)
 			report(r)
 			return
 		}
@@ -408,6 +418,19 @@ func main() {
 			checkCase(r, &cases[i])
 		})
 		r.Set("datasets", len(cases))
+		// The caller owns what Convert returned: after writing into every map and every
+		// coordinate list of a result, the next conversion of the same input still gives the
+		// same output (nothing a result holds may be shared with later results). Sequential:
+		// if the library did share something, the writes of parallel workers would end the
+		// process with "concurrent map writes" instead of a report.
+		nscribble := 0
+		for i := range cases {
+			if r.TimeUp() {
+				break
+			}
+			nscribble += scribbleCase(r, &cases[i])
+		}
+		r.Set("conversions_after_a_write_into_the_previous_result", nscribble)
 		report(r)
 	})
 }
